@@ -212,7 +212,13 @@ class BaseStorage(UndoLogCompatible):
                 self._ts = t = t.laterThan(self._ts)
                 self._tid = t.raw()
             else:
-                self._ts = TimeStamp(tid)
+                # The id is the caller's.  It becomes the basis of the ids
+                # to come only if it is later than the present one: an id
+                # from the past (a begin that is then aborted, a copy out
+                # of order) must not move the basis back.
+                ts = TimeStamp(tid)
+                if self._ts is None or ts > self._ts:
+                    self._ts = ts
                 self._tid = tid
 
             del self._resolved[:]
